@@ -1,4 +1,5 @@
 import AgModel.Proofs.MachInt
+import AgModel.Proofs.MachIntExt
 /-!
 # C10 (no panic from input), machine-integer layer
 
@@ -277,7 +278,143 @@ theorem index_arith_never_panics (slice shred : UInt64) (h1 : sliceIndexNew slic
     obtain ⟨c, hc, hcn⟩ := cadd_of_lt (a := slice) (b := 1) (by rw [one_toNat]; omega)
     exact ⟨c, hc, by rw [hcn, one_toNat]⟩
 
+/-! ## `Stake` arithmetic, `Fraction::cmp` / `eq`, `Slot::windows()` -/
+
+/-- `Stake + Stake` / `+=` panic iff the exact sum `>= 2^64` (`checked_add` is `None` exactly then); `Stake - Stake` /
+    `-=` panic iff `rhs > self`; `Stake * u64` panics iff the exact product `>= 2^64`; otherwise all are exact. -/
+theorem stake_add_sub_mul_panic_iff (a b : UInt64) :
+    (stakeAdd a b = none ↔ 2 ^ 64 ≤ a.toNat + b.toNat) ∧ (∀ c, stakeAdd a b = some c → c.toNat = a.toNat + b.toNat) ∧
+    stakeCheckedAdd a b = stakeAdd a b ∧
+    (stakeSub a b = none ↔ a.toNat < b.toNat) ∧ (∀ c, stakeSub a b = some c → c.toNat = a.toNat - b.toNat) ∧
+    (stakeMul a b = none ↔ 2 ^ 64 ≤ a.toNat * b.toNat) ∧ (∀ c, stakeMul a b = some c → c.toNat = a.toNat * b.toNat) :=
+  ⟨cadd_none, fun _ h => (cadd_some h).1, rfl, csub_none, fun _ h => (csub_some h).1, cmul_none,
+    fun _ h => (cmul_some h).1⟩
+
+/-- `Stake::div_ceil` panics iff the divisor is 0 (the `+ 1` of the rounding cannot overflow); otherwise the result
+    `r` is the ceiling: `r = a / d + [a % d ≠ 0]`, i.e. the least `r` with `a ≤ r * d`. -/
+theorem stake_divCeil_panics_iff (a d : UInt64) :
+    (stakeDivCeil a d = none ↔ d = 0) ∧
+    ∀ r, stakeDivCeil a d = some r →
+      r.toNat = a.toNat / d.toNat + (if a.toNat % d.toNat = 0 then 0 else 1) ∧
+      a.toNat ≤ r.toNat * d.toNat ∧ r.toNat * d.toNat < a.toNat + d.toNat := by
+  refine ⟨stakeDivCeil_none a d, fun r h => ?_⟩
+  have hr := stakeDivCeil_some a d r h
+  have hd : d ≠ 0 := fun hd => by rw [(stakeDivCeil_none a d).mpr hd] at h; cases h
+  have hd0 : 0 < d.toNat := by
+    rcases Nat.eq_zero_or_pos d.toNat with h0 | h0
+    · exact absurd (UInt64.toNat_inj.mp (by rw [h0]; rfl)) hd
+    · exact h0
+  refine ⟨hr, ?_⟩
+  have hdm := Nat.div_add_mod a.toNat d.toNat
+  have hml := Nat.mod_lt a.toNat hd0
+  rw [hr, Nat.add_mul, Nat.mul_comm (a.toNat / d.toNat)]
+  by_cases hz : a.toNat % d.toNat = 0
+  · rw [if_pos hz]; omega
+  · rw [if_neg hz]; omega
+
+/-- `Fraction::cmp` (and `partial_cmp`, which is `Some(cmp)`) never panics - the u128 products cannot overflow - and
+    is the comparison of the cross products, i.e. of the rationals `n1/d1` and `n2/d2` (denominators are `NonZeroU64`). -/
+theorem fracCmp_never_panics_refines (n1 d1 n2 d2 : UInt64) :
+    fracCmp n1 d1 n2 d2 = some (compare (n1.toNat * d2.toNat) (n2.toNat * d1.toNat)) := fracCmp_eq n1 d1 n2 d2
+
+/-- `==` is consistent with `cmp`: true iff `cmp` is `Equal` iff the cross products agree (`1/2 == 2/4`); `cmp` is
+    antisymmetric (`b.cmp(a)` is the reverse of `a.cmp(b)`) and reflexive. -/
+theorem fracEq_consistent (n1 d1 n2 d2 : UInt64) :
+    (fracEq n1 d1 n2 d2 = some true ↔ fracCmp n1 d1 n2 d2 = some .eq) ∧
+    (fracEq n1 d1 n2 d2 = some true ↔ n1.toNat * d2.toNat = n2.toNat * d1.toNat) ∧
+    (fracCmp n2 d2 n1 d1 = (fracCmp n1 d1 n2 d2).map Ordering.swap) ∧
+    fracCmp n1 d1 n1 d1 = some .eq := by
+  unfold fracEq
+  rw [fracCmp_eq, fracCmp_eq, fracCmp_eq]
+  refine ⟨?_, ?_, ?_, ?_⟩
+  · simp only [Option.map_some, Option.some.injEq]
+    cases compare (n1.toNat * d2.toNat) (n2.toNat * d1.toNat) <;> decide
+  · simp only [Option.map_some, Option.some.injEq]
+    rw [← Nat.compare_eq_eq (a := n1.toNat * d2.toNat) (b := n2.toNat * d1.toNat)]
+    cases compare (n1.toNat * d2.toNat) (n2.toNat * d1.toNat) <;> decide
+  · simp only [Option.map_some, Option.some.injEq]
+    rw [Nat.compare_swap]
+  · rw [Nat.compare_eq_eq.mpr rfl]
+
+/-- `cmp` is consistent with `is_met`: `Fraction(n/d).is_met(value, total)` iff `value/total >= n/d` under `cmp`. -/
+theorem fracCmp_consistent_with_isMet (num den value total : UInt64) :
+    isMet num den value total = some true ↔ fracCmp value total num den ≠ some .lt := by
+  rw [isMet_eq, fracCmp_eq]
+  simp only [Option.some.injEq, ne_eq]
+  rw [Nat.compare_eq_lt, (isMet_never_panics_refines num den value total).2, Nat.mul_comm total.toNat num.toNat]
+  omega
+
+/-- `cmp` is transitive (`<=`), so with antisymmetry and totality (`compare` on the products) it is a total preorder
+    on fractions whose `Equal` classes are the equal rationals. Needs the non-zero denominators. -/
+theorem fracCmp_le_trans (n1 d1 n2 d2 n3 d3 : UInt64) (h2 : d2 ≠ 0)
+    (h12 : fracCmp n1 d1 n2 d2 ≠ some .gt) (h23 : fracCmp n2 d2 n3 d3 ≠ some .gt) :
+    fracCmp n1 d1 n3 d3 ≠ some .gt := by
+  rw [fracCmp_eq] at *
+  simp only [Option.some.injEq, ne_eq, Nat.compare_eq_gt, Nat.not_lt] at *
+  have hd : 0 < d2.toNat := by
+    rcases Nat.eq_zero_or_pos d2.toNat with h0 | h0
+    · exact absurd (UInt64.toNat_inj.mp (by rw [h0]; rfl)) h2
+    · exact h0
+  -- n1*d2 ≤ n2*d1, n2*d3 ≤ n3*d2  ⟹  n1*d3 ≤ n3*d1
+  apply Nat.le_of_mul_le_mul_right (c := d2.toNat) _ hd
+  calc n1.toNat * d3.toNat * d2.toNat = n1.toNat * d2.toNat * d3.toNat := by rw [Nat.mul_right_comm]
+    _ ≤ n2.toNat * d1.toNat * d3.toNat := Nat.mul_le_mul_right _ h12
+    _ = n2.toNat * d3.toNat * d1.toNat := by rw [Nat.mul_right_comm]
+    _ ≤ n3.toNat * d2.toNat * d1.toNat := Nat.mul_le_mul_right _ h23
+    _ = n3.toNat * d1.toNat * d2.toNat := by rw [Nat.mul_right_comm]
+
+/-- `Slot::windows().take(k)` (`(0..).step_by(W)`): panics iff `k > 2^64 / W` - the iterator yields every window start
+    of the u64 range (the last one, `2^64 - W`, included) and panics on the call after that; otherwise it yields
+    `0, W, 2W, …, (k-1)·W`. -/
+theorem windows_panics_iff (k : Nat) :
+    (windows k = none ↔ 2 ^ 64 < k * W) ∧
+    ∀ l, windows k = some l → l.map UInt64.toNat = (List.range k).map (fun i => i * W) := by
+  cases k with
+  | zero =>
+    refine ⟨by simp [windows], ?_⟩
+    intro l h; simp only [windows] at h; cases h; rfl
+  | succ k =>
+    unfold windows
+    have h01 : cadd 0 1 = some 1 := by decide
+    rw [h01]; simp only
+    have hsp := windowsFrom_spec k 1 0 (by rw [one_toNat]; omega)
+    have hW := W_pos
+    have hWle : W ≤ 2 ^ 64 := by have := W_dvd; have := W64_toNat; have := W64.toNat_lt; omega
+    cases hr : windowsFrom 1 k with
+    | none =>
+      have := hsp.1.mp hr
+      simp only [true_iff, reduceCtorEq, false_implies, implies_true, and_true]
+      have h1 : (0 + 1 + k) = k + 1 := by omega
+      rw [h1] at this; exact this.1
+    | some rest =>
+      have hno : ¬ (2 ^ 64 < (0 + 1 + k) * W ∧ 0 < k) := by
+        intro hc; have := hsp.1.mpr hc; rw [hr] at this; cases this
+      refine ⟨?_, ?_⟩
+      · simp only [reduceCtorEq, false_iff]
+        intro hc
+        have h1 : (0 + 1 + k) = k + 1 := by omega
+        rw [h1] at hno
+        by_cases hk : 0 < k
+        · exact hno ⟨hc, hk⟩
+        · have : k = 0 := by omega
+          subst this
+          omega
+      · intro l hl
+        cases hl
+        have := hsp.2 rest hr
+        simp only [List.map_cons, this, List.range_succ_eq_map, List.map_cons, List.map_map, zero_toNat]
+        refine List.cons_eq_cons.mpr ⟨by simp, ?_⟩
+        apply List.map_congr_left
+        intro i _
+        simp only [Function.comp]; congr 1; omega
+
 /-! ## non-vacuity -/
+
+example : fracEq 1 2 2 4 = some true ∧ fracCmp 1 3 1 2 = some .lt ∧ fracCmp 3 4 2 3 = some .gt
+    ∧ fracCmp MAX 1 (MAX - 1) 1 = some .gt ∧ fracCmp MAX MAX (MAX - 1) (MAX - 1) = some .eq := by decide
+example : stakeDivCeil 7 2 = some 4 ∧ stakeDivCeil MAX 1 = some MAX ∧ stakeDivCeil MAX 2 = some (MAX / 2 + 1)
+    ∧ stakeDivCeil 5 0 = none ∧ stakeSub 3 4 = none ∧ stakeMul (MAX / 2 + 1) 2 = none := by decide
+example : windows 3 = some [0, 4, 8] := by decide
 
 example : first 7 = some 4 ∧ last 7 = some 7 ∧ slotsInWindow 5 = some [4, 5, 6, 7] := by decide
 example : next MAX = none ∧ prev 0 = none ∧ next 41 = some 42 ∧ prev 42 = some 41 := by decide
